@@ -211,19 +211,40 @@ class Driver:
         self.sub = sub
         self.p = subprocess.Popen([DRIVER_BIN, sub], stdin=subprocess.PIPE, stdout=subprocess.PIPE, text=True, bufsize=1)
         self.n = 0
+        # watchdog: a driver that does not answer one request within the limit is killed (the models are total, so this only
+        # happens with a damaged build or a machine that is stuck); `ask` then reports it like a driver that died
+        self._busy_since: float | None = None
+        self._timed_out = False
+        import threading
+        threading.Thread(target=self._watch, daemon=True).start()
+
+    def _watch(self) -> None:
+        import time as _t
+        limit = float(os.environ.get("VERIF_DRIVER_TIMEOUT", "900"))
+        while self.p.poll() is None:
+            _t.sleep(5)
+            b = self._busy_since
+            if b is not None and _t.time() - b > limit:
+                self._timed_out = True
+                self.p.kill()
+                return
 
     def ask(self, obj: Any) -> Any:
         line = json.dumps(obj, separators=(",", ":"))
         assert "\n" not in line
+        import time as _t
+        self._busy_since = _t.time()
         try:
             self.p.stdin.write(line + "\n")
             self.p.stdin.flush()
             out = self.p.stdout.readline()
         except BrokenPipeError:
             out = ""
+        finally:
+            self._busy_since = None
         self.n += 1
         if not out:
-            raise DriverBroken("driver %s died on line %r" % (self.sub, line[:300]))
+            raise DriverBroken("driver %s %s on line %r" % (self.sub, "did not answer in time and was killed" if self._timed_out else "died", line[:300]))
         return json.loads(out)
 
     def close(self) -> None:
